@@ -15,12 +15,12 @@ ID = "C14"
 DELTA = 0.1
 EPS = 1e-6
 STARTUPS = ["complete", "complete-slow", "complete-late", "failed", "failed-cleanup", "failed-swallow", "failed-other-error",
-            "raise-first", "raise-after-recv", "hang", "return-early", "unknown-message"]
+            "failed-in-group", "raise-first", "raise-after-recv", "hang", "return-early", "unknown-message"]
 SHUTDOWNS = ["complete", "complete-slow", "failed", "raise", "hang", "returned-before", "unknown-message",
              "crash-while-serving"]
 # what the property says must follow each startup script
 EXPECT = {"complete": "serve", "complete-slow": "serve", "complete-late": "abort-timeout", "failed": "abort-failed",
-          "failed-cleanup": "abort-failed", "failed-swallow": "abort-failed", "failed-other-error": "abort-failed", "raise-first": "serve",
+          "failed-cleanup": "abort-failed", "failed-swallow": "abort-failed", "failed-other-error": "abort-failed", "failed-in-group": "abort-failed", "raise-first": "serve",
           "raise-after-recv": "serve", "hang": "abort-timeout", "return-early": "unjudged", "unknown-message": "serve"}
 
 
@@ -92,6 +92,10 @@ def _lifespan_program(startup: str, shutdown: str, d_start: float, d_shut: float
                 return
             if startup == "failed-other-error":
                 raise ValueError("cleanup after the failed startup went wrong too")
+            if error is not None and startup == "failed-in-group":
+                # anyio / asyncio.TaskGroup style applications: the error raised by send() leaves the
+                # application wrapped in an exception group
+                raise BaseExceptionGroup("unhandled errors in a TaskGroup", [error])
             if error is not None:
                 raise error
             return
